@@ -345,7 +345,7 @@ def run(chk, P):
              '-- same obligations as R09.8, restricted to the dataoffsets table')
     from rules import c09
     c09.r09_8(common.Proxy(chk, 'R07.9', only=lambda fn, cons: cons.startswith('dataoffsets-')), P, E)
-    chk.floor('R07.9', 2)
+    chk.floor('R07.9', 1)
     from rules import pagestate
     pagestate.stream_live(chk, P, 'R07.10')
     chk.floor('R07.10', 4)
